@@ -19,7 +19,9 @@
         -> (x<hash> (0 chain v r s)|(class) x<hash'>|() (0 x<addr>)|(class)|())
    (1 tx signer REC)                      Sender of a tx with arbitrary V R S
         -> (protected chainid x<hash> (0 x<addr>)|(class))
-   (2 v r s)                              ValidateSignatureValues, frontier and homestead
+   (2 v r s x<hash>)                      ValidateSignatureValues, frontier and homestead (the hash is
+                                          used by the Go oracle: Ecrecover / SigToPub / VerifySignature)
+   (3 x<hash> x<key>), (9 v r s x<hash>)  curve-only cases (crypto.Sign round trip; recovery ids 4..7): ()
    (4 cfg num|() time) MakeSigner, (5 cfg) LatestSigner, (6 ()|(chain)) LatestSignerForChainID
         -> (signer) | () when the constructor panics
    (7 v r s maybeProtected)               deriveChainId, isProtectedV, sanityCheckSignature *)
@@ -184,9 +186,12 @@ Definition C03_run (c : sx) : sx :=
               e_sender (m_sender rt sg t)]
       | _, _, _ => SErr 1
       end
-  | SL [SI 2; SI v; SI r; SI s] =>
+  | SL [SI 2; SI v; SI r; SI s; SB _] =>
       SL [sbool (validate_signature_values v r s false);
           sbool (validate_signature_values v r s true)]
+  (* kinds 3 and 9 exercise the curve only (Go oracle + backend comparison) *)
+  | SL [SI 3; SB _; SB _] => SL []
+  | SL [SI 9; SI _; SI _; SI _; SB _] => SL []
   | SL [SI 4; cfg; num; time] =>
       match d_cfg cfg, d_opt sx_Z num, sx_N time with
       | Some cfg, Some num, Some time => e_signer (make_signer cfg num time)
